@@ -236,6 +236,7 @@ func c06(c *Ctx) {
 		c.R.Harness("driver panic in work item: " + firstLines(pn, 12))
 	}
 	c06params(c, addSample, docs)
+	c06rules(c, addSample, docs)
 	// ---- validate everything in one batch ----
 	var jobs []pyJob
 	for i, s := range samples {
